@@ -2,7 +2,7 @@
    Statements only. *)
 From Coq Require Import Reals List Arith.
 From LF Require Import Base.Opcode Base.Num Base.Arena Base.Sem Tree.Build Tree.BuildSem Eval.Deck Eval.Batch Eval.DeckSem Eval.DeckSemReach Base.RInst Tree.Flatten Tree.FlattenSem Tree.Optimize Tree.OptimizePure Eval.EvalDenotes.
-From LF Require Gen.ArrayKernels_gen Eval.KernelsAgree Eval.DerivSem.
+From LF Require Gen.ArrayKernels_gen Eval.KernelsAgree Eval.DerivSem Eval.ModKernel.
 
 (* Batch evaluation is slot-wise: position k of a batch of any size (any
    count_simd, any stale contents in the other positions) is the single-point
@@ -18,8 +18,21 @@ Proof. exact @batch_pointwise. Qed.
    (eval_array.cpp) by translate/gen_kernels.py, one match arm per C++ case, read over the reals; it is the
    real-number instance the semantic theorems use ([DerivSem.vk], i.e. [RD]'s unary / binary kernels) *)
 Theorem C01_value_kernels_from_source :
-  forall op a b, ArrayKernels_gen.vkern_gen op a b = DerivSem.vk op a b.
+  forall op a b, (op = OP_MOD -> b <> 0%R) -> ArrayKernels_gen.vkern_gen op a b = DerivSem.vk op a b.
 Proof. exact KernelsAgree.vkern_gen_eq. Qed.
+(* THE MOD LOOP IS THE FLOOR MODULO.  The OP_MOD arm of [vkern_gen] is the C++ loop body statement by statement
+   (d = fabs (a / b); d = -ceil d or floor d by the xor of the operands' signs; out = a - b * d; two clamps "for
+   safety").  Over the reals and for a non-zero divisor it computes a - b * floor (a / b) ([DerivSem.Rmod], the
+   meaning of mod in every semantic theorem), the result lies in [0, b) for b > 0 and in (b, 0] for b < 0, so the
+   clamps never fire.  For b = 0 the C++ computes NaN; nothing is claimed there. *)
+Theorem C01_mod_kernel_is_floor_mod :
+  forall a b : R, b <> 0%R -> ArrayKernels_gen.vkern_gen OP_MOD a b = DerivSem.Rmod a b.
+Proof. exact ModKernel.mod_kernel_is_floor_mod. Qed.
+Theorem C01_mod_kernel_range :
+  forall a b : R, b <> 0%R ->
+    ((0 < b)%R -> (0 <= ArrayKernels_gen.vkern_gen OP_MOD a b < b)%R) /\
+    ((b < 0)%R -> (b < ArrayKernels_gen.vkern_gen OP_MOD a b <= 0)%R).
+Proof. exact ModKernel.mod_kernel_range. Qed.
 
 Print Assumptions C01_batch_pointwise.
 
@@ -77,3 +90,5 @@ Theorem C01_eval_denotes : forall uf bf,
 Proof. exact eval_denotes. Qed.
 Print Assumptions C01_eval_denotes.
 Print Assumptions C01_value_kernels_from_source.
+Print Assumptions C01_mod_kernel_is_floor_mod.
+Print Assumptions C01_mod_kernel_range.
